@@ -152,8 +152,19 @@ fn base_string<V: Variant>(b: usize) -> Vec<u8> {
     s
 }
 
-/// Produces record `idx` of section `name`.
+/// Produces record `idx` of section `name`; a panic of the library becomes the record's content, so that a
+/// configuration in which an operation panics differs from one in which it does not.
 pub fn record(name: &str, idx: u64) -> Vec<u8> {
+    match std::panic::catch_unwind(|| record_inner(name, idx)) {
+        Ok(r) => r,
+        Err(p) => {
+            let msg = p.downcast_ref::<&str>().map(|s| s.to_string()).or_else(|| p.downcast_ref::<String>().cloned()).unwrap_or_default();
+            format!("PANIC:{msg}").into_bytes()
+        }
+    }
+}
+
+fn record_inner(name: &str, idx: u64) -> Vec<u8> {
     let mut out = Vec::new();
     match name {
         "gen-short" => {
